@@ -136,4 +136,8 @@ pub fn token_body(n: usize, l: usize, align: usize, last: bool, sign: bool, low:
     Some(b.to_bytes(l, false))
 }
 
-pub const RUNS: [usize; 12] = [0, 1, 93, 94, 95, 96, 255, 256, 257, 511, 512, 513];
+/// unary run lengths: every length up to 130 (the cap is 95; window-at-a-time scanners have their seams at
+/// multiples of 8, 16, 32, 64 minus the cursor alignment) and the values around 256 and 512
+pub fn runs() -> Vec<usize> {
+    (0..=130).chain([255, 256, 257, 511, 512, 513]).collect()
+}
